@@ -72,6 +72,11 @@ pub fn check(tier: Tier) -> Check {
             tier.pick(15, 300),
         ));
     }
+    // publishes carrying every option (RETAIN, all properties, a 20 000-byte payload); both connections
+    // opened by extended authentication
+    parts.push(Part::new("C17/resume", json!({"depth": tier.pick(4, 5), "expiry": 1000, "secs_ago": 10, "rich": true}), 0, tier.pick(15, 300)));
+    parts.push(Part::new("C17/resume", json!({"depth": tier.pick(4, 5), "expiry": 1000, "secs_ago": 10, "auth": true}), 0, tier.pick(15, 300)));
+    parts.push(Part::new("C17/resume", json!({"depth": tier.pick(3, 4), "expiry": 0, "secs_ago": 10, "auth": true}), 0, tier.pick(15, 300)));
     // the first connection ends by the user's DISCONNECT, the server's, or a read error
     for end in ["disconnect", "server", "error"] {
         parts.push(Part::new(
@@ -135,22 +140,70 @@ pub fn scenario_for(prop: &'static str, name: &str, params: &Value) -> Scenario 
         }
         // the interval in force is the broker's, if it states one
         let expiry = connack_expiry.unwrap_or(expiry);
-        sys.connect_with(
-            spec.clone(),
-            SPacket::Connack {
-                session_present: false,
-                reason: 0,
-                props: cprops.clone(),
-            },
-        );
+        // (params.auth: both connections are opened by extended authentication: CONNECT, AUTH
+        // challenge, authorize(), CONNACK)
+        let auth = params["auth"].as_bool().unwrap_or(false);
+        let spec = if auth {
+            ConnectSpec { auth_method: Some("m".into()), auth_data: Some(vec![1]), ..spec }
+        } else {
+            spec
+        };
+        let open = |sys: &mut Sys, sp: bool, props: Vec<Prop>| {
+            if !auth {
+                sys.connect_with(spec.clone(), SPacket::Connack { session_present: sp, reason: 0, props });
+                return;
+            }
+            sys.connect_with(
+                spec.clone(),
+                SPacket::Auth {
+                    reason: 0x18,
+                    props: vec![Prop::str(P_AUTH_METHOD, "m"), Prop::bin(P_AUTH_DATA, &[2])],
+                    form: 2,
+                },
+            );
+            if sys.dead {
+                return;
+            }
+            let a = AuthSpec { reason: Some(0x18), method: Some("m".into()), data: Some(vec![3]), user_props: vec![] };
+            sys.events.push("Authorize".into());
+            sys.classes.push("Authorize".into());
+            sys.m.authorize(&a);
+            sys.w.cmd(CtxCmd::Authorize(a));
+            sys.sync();
+            if sys.dead {
+                return;
+            }
+            let mut p = vec![Prop::str(P_AUTH_METHOD, "m")];
+            p.extend(props);
+            sys.apply(Ev::Deliver(SPacket::Connack { session_present: sp, reason: 0, props: p }));
+        };
+        open(&mut sys, false, cprops.clone());
         if !sys.dead {
             sys.start_run();
         }
         // other requests awaiting their acknowledgement sit between the publishes in the client's
         // bookkeeping; they are never re-sent
+        let mut p1 = PublishSpec::simple(1, "t/a", b"one");
+        let mut p2 = PublishSpec::simple(2, "t/b", b"two");
+        if params["rich"].as_bool().unwrap_or(false) {
+            // what is re-sent is the caller's packet: every option, flag and byte of it
+            for (p, big) in [(&mut p1, false), (&mut p2, true)] {
+                p.retain = Some(true);
+                p.pfi = Some(true);
+                p.topic_alias = Some(9);
+                p.expiry = Some(77);
+                p.correlation = Some(vec![0, 255, 7]);
+                p.response_topic = Some("re/\u{feff}ply".into());
+                p.content_type = Some("ct".into());
+                p.user_props = vec![("z".into(), "1".into()), ("a".into(), "2".into()), ("z".into(), "3".into())];
+                if big {
+                    p.payload = Some(vec![0xa5; 20_000]);
+                }
+            }
+        }
         let specs = vec![
-            OpSpec::Publish(PublishSpec::simple(1, "t/a", b"one")),
-            OpSpec::Publish(PublishSpec::simple(2, "t/b", b"two")),
+            OpSpec::Publish(p1),
+            OpSpec::Publish(p2),
             OpSpec::Ping,
             OpSpec::Subscribe(SubscribeSpec::simple("s/a")),
             OpSpec::Unsubscribe(UnsubscribeSpec::simple("s/a")),
@@ -209,14 +262,7 @@ pub fn scenario_for(prop: &'static str, name: &str, params: &Value) -> Scenario 
                 cprops2.retain(|p| p.id != P_RECEIVE_MAXIMUM);
                 cprops2.push(Prop::u16(P_RECEIVE_MAXIMUM, r2 as u16));
             }
-            sys.connect_with(
-                spec.clone(),
-                SPacket::Connack {
-                    session_present: !expired,
-                    reason: 0,
-                    props: cprops2,
-                },
-            );
+            open(&mut sys, !expired, cprops2);
             if !sys.dead {
                 sys.events.push("Run(resume)".into());
                 sys.classes.push(format!("Resume(expired={})", expired));
